@@ -61,6 +61,7 @@ package jsonpatch
 //@   ensures[C01,C05] old-cells-kept: d != nil ==> forall j int :: 0 <= j && j < n ==> old(d.nodes)[j] == old(d.nodes[j])
 //@   ensures[C08] attrs: !isTestFailed(err) && !isMissing(err) && !isCopyLimit(err)
 //@   ensures[C08] invalid-index: d != nil && err != nil && atoiOK(key) ==> isInvalidIndex(err)
+//@   ensures[C14] keys-arrays: forall x *partialDoc {x.keys} :: x.keys.arr == old(x.keys.arr) || x.keys == nil || fresh(x.keys)
 
 //@ func (*partialArray).remove
 //@   requires recv: options != nil
@@ -110,6 +111,7 @@ package jsonpatch
 //@   ensures[C05] order-kept: forall j int :: 0 <= j && j < old(len(d.keys)) ==> d.keys[j] == old(d.keys[j])
 //@   ensures[C08] attrs: !isTestFailed(err) && !isCopyLimit(err) && !isMissing(err) && !isInvalidIndex(err)
 //@   ensures[C02] keeps-no-null-kids: old(noNullKids()) && (val == nil || kind(val(*val.raw)) != KNull) ==> noNullKids()
+//@   ensures[C14] keys-arrays: forall x *partialDoc {x.keys} :: x.keys.arr == old(x.keys.arr) || x.keys == nil || fresh(x.keys)
 //@   loop 1
 //@   invariant bounds: -1 <= rangeindex && rangeindex < len(d.keys)
 //@   invariant not-found-so-far: forall j int :: 0 <= j && j <= rangeindex ==> d.keys[j] != key
@@ -126,6 +128,7 @@ package jsonpatch
 //@   ensures[C05] order-kept: forall j int :: 0 <= j && j < old(len(d.keys)) ==> d.keys[j] == old(d.keys[j])
 //@   ensures[C08] attrs: !isTestFailed(err) && !isCopyLimit(err) && !isMissing(err) && !isInvalidIndex(err)
 //@   ensures[C02] keeps-no-null-kids: old(noNullKids()) && (val == nil || kind(val(*val.raw)) != KNull) ==> noNullKids()
+//@   ensures[C14] keys-arrays: forall x *partialDoc {x.keys} :: x.keys.arr == old(x.keys.arr) || x.keys == nil || fresh(x.keys)
 
 //@ func (*partialDoc).remove
 //@   requires recv: d != nil && options != nil
@@ -230,6 +233,7 @@ package jsonpatch
 //@   ensures[C08] attrs: !isTestFailed(err) && !isMissing(err) && !isCopyLimit(err) && !isInvalidIndex(err)
 //@   ensures[C02] keeps-no-null-kids: old(noNullKids()) ==> noNullKids()
 //@   ensures[C01,C06] bytes-kept: n.raw != nil ==> bytes(*n.raw) == old(bytes(*n.raw))
+//@   ensures[C14] keys-arrays: forall x *partialDoc {x.keys} :: x.keys.arr == old(x.keys.arr) || x.keys == nil || fresh(x.keys)
 
 //@ func (*lazyNode).intoAry
 //@   requires node: nodeOK(n)
@@ -248,6 +252,7 @@ package jsonpatch
 //@   ensures[C08] attrs: !isTestFailed(err) && !isMissing(err) && !isCopyLimit(err) && !isInvalidIndex(err)
 //@   ensures[C02] keeps-no-null-kids: old(noNullKids()) ==> noNullKids()
 //@   ensures[C01,C06] bytes-kept: n.raw != nil ==> bytes(*n.raw) == old(bytes(*n.raw))
+//@   ensures[C14] keys-arrays: forall x *partialDoc {x.keys} :: x.keys.arr == old(x.keys.arr) || x.keys == nil || fresh(x.keys)
 
 //@ func (*lazyNode).compact
 //@   requires node: n != nil
@@ -549,11 +554,17 @@ package jsonpatch
 //@   callsite[C14] add#3 new-array-padding-appends: arg_key == itoa(i)
 //@   loop 1
 //@   invariant container: conOK(doc) && conOK(*pd) && *pd == old(*pd)
+//@   invariant parts-private: forall d *partialDoc {d.keys} :: d.keys.arr != parts.arr
+//@   invariant parts-kept: len(parts) == ntok(path) - 1 && (forall j int {parts[j]} :: 0 <= j && j < len(parts) ==> parts[j] == tok(path, j + 1))
 //@   loop 2
 //@   invariant container: conOK(doc) && conOK(*pd) && *pd == old(*pd)
+//@   invariant parts-private: forall d *partialDoc {d.keys} :: d.keys.arr != parts.arr
+//@   invariant parts-kept: len(parts) == ntok(path) - 1 && (forall j int {parts[j]} :: 0 <= j && j < len(parts) ==> parts[j] == tok(path, j + 1))
 //@   loop 3
 //@   invariant container: conOK(doc) && conOK(*pd) && *pd == old(*pd)
-//@   invariant[C14] pad-count: arrIndex == padCount(parts[pi + 1])
+//@   invariant parts-private: forall d *partialDoc {d.keys} :: d.keys.arr != parts.arr
+//@   invariant parts-kept: len(parts) == ntok(path) - 1 && (forall j int {parts[j]} :: 0 <= j && j < len(parts) ==> parts[j] == tok(path, j + 1))
+//@   invariant[C14] pad-count: arrIndex == padCount(tok(path, pi + 2))
 
 // ---- Apply ----
 
